@@ -194,12 +194,17 @@ macro_rules! numtraits {
         impl<const N: usize> Integer for $BInt<N> {
             #[inline]
             fn div_floor(&self, other: &Self) -> Self {
-                *self / *other
+                Self::div_floor(*self, *other)
             }
 
             #[inline]
             fn mod_floor(&self, other: &Self) -> Self {
-                *self % *other
+                let rem = *self % *other;
+                if rem.is_zero() || rem.is_negative() == other.is_negative() {
+                    rem
+                } else {
+                    rem + *other
+                }
             }
 
             #[inline]
